@@ -204,6 +204,10 @@ class KernExporter(object):
                 * symbolic_duration["actual_notes"]
                 / symbolic_duration["normal_notes"]
             )
+            # a whole reciprocal value is written without decimals ("12", not
+            # "12.0": a period is an augmentation dot)
+            if kern_base == int(kern_base):
+                kern_base = int(kern_base)
             kern_base = str(kern_base)
         return kern_base + dots
 
